@@ -165,6 +165,192 @@ def register(w):
         ra = lc.get("removed_any")
         return [("nothing_removed_by_continuing_iterations", z3.Not(lc.ex.truthy(ra)) if ra is not None else z3.BoolVal(True))]
 
+    # ==================================================================== T7 (sub-pass "chain between one transpose pair")
+    ew_ops = sorted(code_table("ELEMENTWISE_UNARY_OPS") | code_table("ELEMENTWISE_BINARY_OPS"))
+
+    def is_ew(op_term):
+        return z3.Or([op_term == z3.StringVal(o) for o in ew_ops])
+
+    def produced_by(ex, E_arr, t1, v):
+        """v is an output of a node of E or of T1"""
+        m = z3.Const("m!pb", N)
+        return z3.Exists([m], z3.And(z3.Or(sel(E_arr, m), m == t1), GM_produces(ex, m, v)))
+
+    def GM_produces(ex, n, v):
+        outs = ex.heap_arrays(NODE, "outputs")
+        i = z3.Int("i!gp")
+        return z3.Exists([i], z3.And(0 <= i, i < sel(outs[1], n), sel(sel(outs[0], n), i) == v))
+
+    def closed_dag(ex, nodes, E_arr, t1, start):
+        """what _collect_transpose_elementwise_chain promises: T1 is a Transpose, E are elementwise nodes of `nodes`, and every
+        non-constant value the DAG reads - including the start value - is produced inside E or by T1"""
+        h = H(ex)
+        e, j = z3.Const("e!cd", N), z3.Int("j!cd")
+        ins = ex.heap_arrays(NODE, "inputs")
+        x = sel(sel(ins[0], e), j)
+        return z3.And(
+            h.op(t1) == z3.StringVal("Transpose"), h.in_seq(nodes, t1), z3.Not(sel(E_arr, t1)),
+            z3.Or(scalar_const(start, hv(ex)), produced_by(ex, E_arr, t1, start)),
+            z3.ForAll([e], z3.Implies(sel(E_arr, e), z3.And(is_ew(h.op(e)), h.in_seq(nodes, e)))),
+            z3.ForAll([e, j], z3.Implies(z3.And(sel(E_arr, e), 0 <= j, j < sel(ins[1], e)),
+                                         z3.Or(x == null_of(VALUE), scalar_const(x, hv(ex)), produced_by(ex, E_arr, t1, x)))))
+
+    def post_collect_chain(c: Ctx):
+        r = c.result
+        if isinstance(r, VNone):
+            return z3.BoolVal(True)
+        t1, E = r.items
+        return closed_dag(c.ex, c["nodes"], E.arr, t1.term, c["start_value"].term)
+    w.add_contract(Contract(
+        f"{MO}:_collect_transpose_elementwise_chain", params={"nodes": Seq(Ref(NODE)), "start_value": Ref(VALUE)}, ret=Opt(Tup(Ref(NODE), SetT(Ref(NODE)))), assumed=True, uf=True, reads_heap=True,
+        ensures=[("closed_elementwise_dag_below_one_transpose", post_collect_chain)],
+        note="worklist collector (sets, early returns): not under contract; exercised by the bounded family C02_transpose_dag_family",
+    ))
+
+    def t7_vars(lc):
+        E, t2, T1 = lc["elem_nodes"], lc["t2_node"], lc["T1"]
+        if not (isinstance(E, VSet) and isinstance(t2, VRef) and isinstance(T1, VRef)):
+            raise OutOfSubset("T7 variables have unexpected kinds")
+        return E, t2.term, T1.term
+
+    def t7_member(E, t2):
+        return lambda n: z3.Or(n == t2, sel(E.arr, n))
+
+    def inv_t7_cons(lc):
+        E, t2, _ = t7_vars(lc)
+        k = z3.Int("k")
+        return [("still_ok", lc.ex.truthy(lc["ok"])), ("consumers_so_far_are_the_second_transpose_or_dag_nodes", z3.ForAll([k], z3.Implies(z3.And(0 <= k, k < lc.idx), t7_member(E, t2)(sel(lc.seq.arrs[0], k)))))]
+
+    def inv_t7_outs(lc):
+        ex = lc.ex
+        E, t2, _ = t7_vars(lc)
+        h = H(ex)
+        e, n = z3.Const("e!o7", N), z3.Const("n!o7", N)
+        visited = lc.idx
+        return [("still_ok", ex.truthy(lc["ok"])),
+                ("outputs_of_visited_dag_nodes_feed_only_the_dag_or_the_second_transpose", z3.ForAll([e, n], z3.Implies(z3.And(sel(visited.arr, e), h.in_seq(lc["nodes"], n), h.reads(n, h.out0(e))), t7_member(E, t2)(n))))]
+
+    def t7_pre_inputs(ex):
+        return ex.ghost["t7_pre"][(NODE, "inputs")]
+
+    def rewired(ex, cond_n, upto=None):
+        """inputs now == inputs at the start of the rewiring, with t1_out replaced by t1_in in the nodes selected by cond_n"""
+        n, i = z3.Const("n!rw7", N), z3.Int("i!rw7")
+        a0, l0 = t7_pre_inputs(ex)
+        a1, l1 = ex.heap_arrays(NODE, "inputs")
+        t1o, t1i = ex.ghost["t7_t1_out"], ex.ghost["t7_t1_in"]
+        old = sel(sel(a0, n), i)
+        return z3.And(z3.ForAll([n], sel(l1, n) == sel(l0, n)),
+                      z3.ForAll([n, i], z3.Implies(z3.And(0 <= i, i < sel(l0, n)), sel(sel(a1, n), i) == z3.If(z3.And(cond_n(n, i), old == t1o), t1i, old))))
+
+    def inv_t7_rewire(lc):
+        ex = lc.ex
+        if lc.phase == "inv-init":
+            ex.ghost["t7_pre"] = {(NODE, "inputs"): list(ex.heap_arrays(NODE, "inputs")), "snap": ex.snapshot_heap(), "hv": hv(ex)}
+            ex.ghost["t7_t1_out"], ex.ghost["t7_t1_in"] = lc["t1_out"].term, lc["t1_in"].term
+        visited = lc.idx
+        return [("inputs_of_visited_dag_nodes_rewired_others_untouched", rewired(ex, lambda n, i: sel(visited.arr, n)))]
+
+    def inv_t7_rewire_inner(lc):
+        ex = lc.ex
+        node = lc["node"].term
+        # the outer loop's visited set is not visible here: what matters is that only `node` changes, position by position
+        n, i = z3.Const("n!ri7", N), z3.Int("i!ri7")
+        a1, l1 = ex.heap_arrays(NODE, "inputs")
+        if lc.phase == "inv-init":
+            ex.ghost["t7_inner_pre"] = list(ex.heap_arrays(NODE, "inputs"))
+        b0, m0 = ex.ghost["t7_inner_pre"]
+        t1o, t1i = ex.ghost["t7_t1_out"], ex.ghost["t7_t1_in"]
+        old = sel(sel(b0, n), i)
+        return [("only_this_node_changes_position_by_position", z3.And(
+            z3.ForAll([n], sel(l1, n) == sel(m0, n)),
+            z3.ForAll([n, i], z3.Implies(z3.And(0 <= i, i < sel(m0, n)), sel(sel(a1, n), i) == z3.If(z3.And(n == node, i < lc.idx, old == t1o), t1i, old)))))]
+
+    def inv_t7_refresh(lc):
+        ex = lc.ex
+        E, t2, _ = t7_vars(lc)
+        h = H(ex)
+        k, v, e = z3.Int("k!r7"), z3.Const("v!r7", V), z3.Const("e!r7", N)
+        if lc.phase == "inv-init":
+            ex.ghost["t7_shape_pre"] = ex.heap_arrays(VALUE, "shape")[0]
+        shp, pshp = ex.heap_arrays(VALUE, "shape")[0], ex.ghost["t7_shape_pre"]
+        return [("dag_nodes_met_so_far_are_refreshed", z3.ForAll([k], z3.Implies(z3.And(0 <= k, k < lc.idx, sel(E.arr, sel(lc.seq.arrs[0], k))), sel(refreshed_arr(ex), sel(lc.seq.arrs[0], k))))),
+                ("only_dag_outputs_change_their_declared_shape", z3.ForAll([v], z3.Or(sel(shp, v) == sel(pshp, v), z3.Exists([e], z3.And(sel(E.arr, e), v == h.out0(e)))))),
+                ("rewiring_is_kept", rewired(ex, lambda n, i: sel(E.arr, n)))]
+
+    def t7_hook(lc, E_events, obl):
+        """facts and effect of a transaction performed by sub-pass T7 (loop 18)"""
+        ex = lc.ex
+        graph = lc["graph"].term
+        E, t2, t1 = t7_vars(lc)
+        nodes = lc["nodes"]
+        kinds = [e[1] for e in E_events if e[1] not in ("refresh", "set_meta")]
+        ok_shape = kinds[:1] == ["rauw"] and all(k_ == "remove" for k_ in kinds[1:]) and "t7_pre" in ex.ghost
+        obl.append(("txn-effect:T7.events_are_rewire_one_bypass_then_removals", z3.BoolVal(ok_shape)))
+        if not ok_shape:
+            return obl
+        rauw = [e for e in E_events if e[1] == "rauw"][0]
+        rems = [e for e in E_events if e[1] == "remove"]
+        pre = ex.ghost["t7_pre"]
+        hv0 = pre["hv"]
+        P = Pre(ex, dict(pre["snap"]))
+        t1_out, t1_in = ex.ghost["t7_t1_out"], ex.ghost["t7_t1_in"]
+        k, n, e = z3.Int("k"), z3.Const("n!t7", N), z3.Const("e!t7", N)
+        perm1, perm2 = lc.get("perm1"), lc.get("perm2")
+        if isinstance(perm1, VSeq) and isinstance(perm2, VSeq):
+            perms_inverse = z3.And(perm1.length == perm2.length, perm1.length == perm_len(t1, hv0), perm2.length == perm_len(t2, hv0),
+                                   z3.ForAll([k], z3.Implies(z3.And(0 <= k, k < perm2.length), z3.And(
+                                       sel(perm1.arrs[0], k) == perm_at(t1, hv0, k), sel(perm2.arrs[0], k) == perm_at(t2, hv0, k), sel(perm1.arrs[0], sel(perm2.arrs[0], k)) == k))))
+        else:
+            perms_inverse = z3.BoolVal(False)
+        cur = ex.heap
+        ex.heap = dict(P.snap)
+        hv_now = ex.ghost.get("heap_version")
+        ex.ghost["heap_version"] = hv0
+        try:
+            h = H(ex)
+            member = t7_member(E, t2)
+            t2_in = in0(ex, t2)
+            unobs = lambda val: z3.And(z3.ForAll([n], z3.Implies(z3.And(P.in_graph(graph, n), h.reads(n, val)), member(n))), z3.Not(h.escapes(graph, val)))  # noqa: E731
+            gn = P.graph_nodes(graph)
+            facts = [
+                ("txn-facts:T7.two_different_transposes_with_mutually_inverse_permutations", z3.And(h.op(t1) == z3.StringVal("Transpose"), h.op(t2) == z3.StringVal("Transpose"), t1 != t2, perms_inverse)),
+                ("txn-facts:T7.the_second_transpose_reads_a_closed_elementwise_dag_below_the_first", z3.And(t2_in != null_of(VALUE), t1_out == h.out0(t1), t1_in == in0(ex, t1), t1_in != null_of(VALUE), closed_dag(ex, nodes, E.arr, t1, t2_in))),
+                ("txn-facts:T7.first_transpose_output_is_seen_only_inside_the_dag", unobs(t1_out)),
+                ("txn-facts:T7.dag_outputs_are_seen_only_inside_the_dag", z3.ForAll([e], z3.Implies(sel(E.arr, e), z3.ForAll([n], z3.Implies(z3.And(P.in_graph(graph, n), h.reads(n, h.out0(e))), member(n)))))),
+                ("txn-facts:T7.no_dag_output_is_a_graph_output_or_captured_by_a_nested_body", z3.ForAll([e], z3.Implies(sel(E.arr, e), z3.Not(h.escapes(graph, h.out0(e)))))),
+                ("txn-facts:T7.consumer_scans_ranged_over_all_nodes_of_the_graph", z3.And(nodes.length == gn[1], z3.ForAll([k], z3.Implies(z3.And(0 <= k, k < nodes.length), sel(nodes.arrs[0], k) == sel(gn[0], k))))),
+            ]
+            empty = z3.Not(z3.Exists([e], sel(E.arr, e)))
+            new_src_want = z3.If(empty, t1_in, t2_in)
+            t2_out = h.out0(t2)
+        finally:
+            for kk, vv in ex.heap.items():
+                cur.setdefault(kk, vv)
+            ex.heap = cur
+            ex.ghost["heap_version"] = hv_now
+        obl.extend(facts)
+        # effect: every dag node reads the source of T1 where it read T1's output; T2's output is replaced by the last dag value (or the source)
+        P2 = Pre(ex, rauw[-3])
+        a_r, l_r = P2.arrays(NODE, "inputs")
+        a0, l0 = pre[(NODE, "inputs")]
+        i = z3.Int("i!e7")
+        old = sel(sel(a0, n), i)
+        obl.append(("txn-effect:T7.every_dag_node_reads_the_source_where_it_read_the_first_transpose", z3.And(
+            z3.ForAll([n], sel(l_r, n) == sel(l0, n)),
+            z3.ForAll([n, i], z3.Implies(z3.And(0 <= i, i < sel(l0, n)), sel(sel(a_r, n), i) == z3.If(z3.And(sel(E.arr, n), old == t1_out), t1_in, old))))))
+        obl.append(("txn-effect:T7.second_transpose_output_replaced_by_the_dag_result_everywhere", z3.And(rauw[2].term == t2_out, rauw[3].term == new_src_want, ex.truthy(rauw[4]))))
+        removed = [e_[3].term for e_ in rems]
+        obl.append(("txn-effect:T7.only_the_two_transposes_are_removed_and_from_this_graph", z3.And([z3.And(z3.Or(r_ == t1, r_ == t2), e_[2].term == graph) for r_, e_ in zip(removed, rems)] + [z3.BoolVal(True)])))
+        ref = ex.ghost.get("refreshed")
+        obl.append(("txn-effect:T7.declared_shapes_of_all_dag_nodes_recomputed_after_rewiring", z3.ForAll([e], z3.Implies(sel(E.arr, e), sel(ref, e))) if ref is not None else z3.BoolVal(False)))
+        shp, ty = ex.heap_arrays(VALUE, "shape")[0], ex.heap_arrays(VALUE, "type")[0]
+        pshp, pty = P.arrays(VALUE, "shape")[0], P.arrays(VALUE, "type")[0]
+        v = z3.Const("v!md7", V)
+        obl.append(("txn-effect:T7.only_dag_outputs_change_their_declared_shape_and_no_declared_type_changes", z3.ForAll([v], z3.And(
+            sel(ty, v) == sel(pty, v), z3.Or(sel(shp, v) == sel(pshp, v), z3.Exists([e], z3.And(sel(E.arr, e), v == P.out(e, 0))))))))
+        return obl
+
     # ---- loop 0: transactions
     def hook(lc):
         ex = lc.ex
@@ -172,6 +358,8 @@ def register(w):
         if lc.phase == "assume":
             ex.events[:] = [e for e in ex.events if not (e and e[0] == "mut")]
             ex.ghost.pop("refreshed", None)
+            for g_ in ("t7_pre", "t7_inner_pre", "t7_shape_pre", "t7_t1_out", "t7_t1_in"):
+                ex.ghost.pop(g_, None)
             for f in structurally_valid(ex):
                 ex.pc.append(f)
             return wf(ex, graph)
@@ -179,6 +367,10 @@ def register(w):
         obl = wf(ex, graph)
         if lc.phase != "inv-step" or not E:
             return obl
+        loops_ = ex.frames[-1]["loops"]
+        l18 = loops_[18] if len(loops_) > 18 else None
+        if l18 is not None and E[0][-1] is not None and l18.lineno <= E[0][-1] <= l18.end_lineno:
+            return t7_hook(lc, E, obl)
         kinds = [e[1] for e in E]
         core = [k for k in kinds if k not in ("refresh", "set_meta")]
         T1, T2 = lc.get("T1"), lc.get("T2")
@@ -274,13 +466,19 @@ def register(w):
         loops={0: LoopSpec(invariant=hook, label="transactions"),
                1: LoopSpec(assumed_summary="Add-chain " + SUMMARY, keep=("changed", "nodes"), label="T5"),
                9: LoopSpec(assumed_summary="elementwise-DAG " + SUMMARY, keep=("changed", "nodes"), label="T6"),
-               18: LoopSpec(assumed_summary="single-pair elementwise-chain " + SUMMARY, keep=("changed", "nodes"), label="T7"),
+               18: LoopSpec(heap_unchanged=True, label="T7-scan"),
+               19: LoopSpec(invariant=inv_t7_cons, heap_unchanged=True, label="T7-consumers-of-T1"),
+               20: LoopSpec(invariant=inv_t7_outs, heap_unchanged=True, label="T7-dag-outputs"),
+               21: LoopSpec(invariant=inv_t7_cons, heap_unchanged=True, label="T7-consumers-of-dag-output"),
+               22: LoopSpec(invariant=inv_t7_rewire, label="T7-rewire"),
+               23: LoopSpec(invariant=inv_t7_rewire_inner, label="T7-rewire-inputs"),
+               24: LoopSpec(invariant=inv_t7_refresh, ghost_havoc=ghost_havoc_refresh, label="T7-refresh"),
                25: LoopSpec(heap_unchanged=True, label="scan"),
                26: LoopSpec(invariant=inv_chain, heap_unchanged=True, label="chain"),
                27: LoopSpec(invariant=inv_refresh, ghost_havoc=ghost_havoc_refresh, label="refresh"),
                28: LoopSpec(invariant=inv_direct, heap_unchanged=True, label="direct")},
         local_types={"chain_nodes": Seq(Ref(NODE)), "allowed_nodes": Seq(Ref(NODE))},
-        track_alloc=True, ret=NoneT, props=["C02", "C08", "C12"], opaque_externals=True, witnesses=["C02_transpose_pair_family"],
+        track_alloc=True, deep_feasibility=True, ret=NoneT, props=["C02", "C08", "C12"], opaque_externals=True, witnesses=["C02_transpose_pair_family", "C02_transpose_dag_family"],
         modifies=[(NODE, "inputs"), (GRAPH, "nodes"), (GRAPH, "outputs"), (VALUE, "shape")],
     ))
 
